@@ -135,6 +135,21 @@ theorem route_correct (fs : List Frame) (hwf : ∀ f ∈ fs, f.WF) (chunks : Lis
     dispatchedTo c (chunks.foldl feed init) = fs.filter (fun f => f.chan = c) := by
   unfold dispatchedTo; rw [(feed_any_chunking fs hwf chunks h).1]
 
+/-- **One reader per connection, also after reconnecting**: `IO.close` joins the reader thread (read from the
+    source on this run), so however often the same object is closed and re-opened exactly one reader consumes the
+    stream - the premise of `feed`'s sequential reading in every theorem above. -/
+theorem one_reader_after_reconnects (k : Nat) : readersAfter k 1 = 1 := by
+  have h : Gen.Parse.closeJoinsReader = true := by decide
+  induction k with
+  | zero => rfl
+  | succ k ih => simpa [readersAfter, readersAfterReconnect, h] using ih
+
+/-- why that matters: with a second (revived) reader on the same buffer a frame is dispatched twice - both readers
+    take the buffer before either has written the rest back -/
+theorem two_readers_dispatch_twice :
+    ([RAct.arrive (Frame.encode ⟨1, 3, [7, 7]⟩), .snap 1, .snap 2, .commit 1, .commit 2].foldl Shared.step {}).st.out =
+      [⟨1, 3, [7, 7]⟩, ⟨1, 3, [7, 7]⟩] := by decide
+
 /-- **A re-opened connection understands its new stream**, whatever the old one left behind: after `IO.open`
     on the same object, in any state `s` (an arbitrary partial frame in the carry-over), any chunking of a complete
     stream `fs` dispatches exactly `fs` after what had been dispatched before, and leaves nothing over. -/
